@@ -189,6 +189,28 @@ static Result runSolver(const Problem& p, const Instance& I, bool plus, double c
     return R;
 }
 
+// Pre-flight in a forked child: does solve() return at all?  PLUS can loop forever on frictional problems (finding PLUS/hang); leaving a
+// hung call by siglongjmp from a signal handler may abandon malloc in mid-operation and crash the worker much later, so the class of
+// cases where that was observed is tried in a throw-away child first and run in-process only if the child came back.
+static std::string preflight(const Problem& p, const Instance& I, bool plus, double cpuLimit = 2.0) {
+    fflush(stdout); fflush(stderr);
+    pid_t c = fork();
+    if (c < 0) return "";
+    if (c == 0) {
+        for (int sg : {SIGVTALRM, SIGSEGV, SIGBUS, SIGFPE, SIGABRT}) signal(sg, SIG_DFL);
+        setTimer(cpuLimit);
+        g_armed = 0;
+        Result R = runSolver(p, I, plus, cpuLimit);   // inside the child the in-process guard is harmless: any outcome ends the child
+        _exit(R.ran ? 0 : R.fault == "timeout" ? 71 : R.fault.rfind("exception", 0) == 0 ? 73 : 72);
+    }
+    int st = 0; waitpid(c, &st, 0);
+    if (WIFEXITED(st) && WEXITSTATUS(st) == 0) return "";
+    if (WIFEXITED(st) && WEXITSTATUS(st) == 71) return "timeout";
+    if (WIFSIGNALED(st) && WTERMSIG(st) == SIGVTALRM) return "timeout";
+    if (WIFEXITED(st) && WEXITSTATUS(st) == 73) return "exception: thrown in the pre-flight child";
+    return WIFSIGNALED(st) ? "signal " + std::to_string(WTERMSIG(st)) : "crash (child exit " + std::to_string(WEXITSTATUS(st)) + ")";
+}
+
 // ---------------------------------------------------------------- reference: unique solution of the box-constrained problem
 // min 1/2 pi'(A+D)pi - rhs'pi  s.t. lo<=pi<=hi on participating rows, pi=0 elsewhere; brute force over active sets.
 struct Box { DV lo, hi; };
@@ -360,7 +382,52 @@ static AFamily makeLs(int m, const std::vector<int>& diagAlpha, const std::vecto
 
 struct Item { int m; int roleIdx; int lIdx; };
 
+// ================================================================ solveBilateral
+// A bilateral case: m rows, A = L L', a D vector of one of four kinds, an ORDERED list of participating rows, rhs.
+struct BCase {
+    int m = 0; std::vector<int> L; int dkind = 0;      // 0: zeros (size m), 1: empty vector (size 0, documented as allowed), 2: uniform 0.1, 3: non-uniform
+    int dvariant = 0;                                  // which non-uniform set: (.1,.2,.3,.4) / (.4,.3,.2,.1) / (.1,.4,.2,.3)
+    std::vector<int> part, rhs;
+    DV dvalues() const { static const double NU[3][4] = {{.1, .2, .3, .4}, {.4, .3, .2, .1}, {.1, .4, .2, .3}}; DV d(m, 0.0);
+        for (int i = 0; i < m; ++i) d[i] = dkind == 2 ? 0.1 : dkind == 3 ? NU[dvariant][i] : 0.0; return d; }
+    std::string str() const { std::ostringstream o; o << "m=" << m << " part="; for (size_t i = 0; i < part.size(); ++i) o << (i ? "," : "") << part[i];
+        o << " L="; for (size_t i = 0; i < L.size(); ++i) o << (i ? "," : "") << L[i]; o << " Dkind=" << dkind << " Dvariant=" << dvariant << " rhs="; for (size_t i = 0; i < rhs.size(); ++i) o << (i ? "," : "") << rhs[i]; return o.str(); }
+};
+static BCase parseBCase(const std::string& text) {
+    BCase c; std::istringstream is(text); std::string tok;
+    while (is >> tok) { size_t e = tok.find('='); if (e == std::string::npos) continue; std::string k = tok.substr(0, e), v = tok.substr(e + 1);
+        if (k == "m") c.m = atoi(v.c_str()); else if (k == "Dkind") c.dkind = atoi(v.c_str()); else if (k == "Dvariant") c.dvariant = atoi(v.c_str());
+        else if (k == "part") { for (auto& r : splitc(v, ',')) c.part.push_back(atoi(r.c_str())); } else if (k == "L") { for (auto& r : splitc(v, ',')) c.L.push_back(atoi(r.c_str())); }
+        else if (k == "rhs") { for (auto& r : splitc(v, ',')) c.rhs.push_back(atoi(r.c_str())); } }
+    return c;
+}
+static DM matrixOf(int m, const std::vector<int>& Lp) { DM L(m), A(m); int q = 0; for (int i = 0; i < m; ++i) for (int j = 0; j <= i; ++j) L(i, j) = Lp[q++];
+    for (int i = 0; i < m; ++i) for (int j = 0; j < m; ++j) { double s = 0; for (int k = 0; k < m; ++k) s += L(i, k) * L(j, k); A(i, j) = s; } return A; }
+struct BResult { bool ran = false, ret = false; std::string fault; DV pi; };
+static BResult runBilateral(const BCase& c, const DM& Ad, bool plus, int pgsFixedSweeps = 0) {
+    BResult R; const int m = c.m; const DV d = c.dvalues();
+    Matrix A(m, m); Vector D(c.dkind == 1 ? 0 : m), rhs(m), pi(m);
+    for (int i = 0; i < m; ++i) { for (int j = 0; j < m; ++j) A(i, j) = Ad(i, j); if (c.dkind != 1) D[i] = d[i]; rhs[i] = c.rhs[i]; pi[i] = 7.0; }   // pi arrives dirty: non-participating entries must come back 0
+    Array_<MultiplierIndex> part; for (int r : c.part) part.push_back(MultiplierIndex(r));
+    PLUSImpulseSolver plusSolver(VROLL); PGSImpulseSolver pgsSolver(VROLL);
+    if (pgsFixedSweeps > 0) { pgsSolver.setConvergenceTol(0); pgsSolver.setMaxIterations(pgsFixedSweeps); }
+    const ImpulseSolver& solver = plus ? (const ImpulseSolver&)plusSolver : (const ImpulseSolver&)pgsSolver;
+    int sig = sigsetjmp(g_jmp, 1);
+    if (sig == 0) { g_armed = 1; setTimer(2.0);
+        try { R.ret = solver.solveBilateral(part, A, D, rhs, pi); R.ran = true; } catch (const std::exception& e) { R.fault = std::string("exception: ") + e.what(); }
+        setTimer(0); g_armed = 0;
+    } else { setTimer(0); R.fault = sig == SIGVTALRM ? "timeout" : "signal " + std::to_string(sig); return R; }
+    if (R.ran) { if (pi.size() != m) { R.ran = false; R.fault = "pi has the wrong size"; } else { R.pi.resize(m); for (int i = 0; i < m; ++i) R.pi[i] = pi[i]; } }
+    return R;
+}
+// residual of P(A+Dx)P' pi = P rhs on the participating rows, for a given diagonal Dx, relative to max(1,|pi|,|rhs|)
+static double bilateralResidual(const BCase& c, const DM& A, const DV& Dx, const DV& pi) {
+    double e = 0, sc = 1; for (int r : c.part) { double s = c.rhs[r]; for (int j : c.part) s -= (A(r, j) + (j == r ? Dx[r] : 0)) * pi[j]; e = std::max(e, std::fabs(s)); sc = std::max(sc, std::max(std::fabs(pi[r]), std::fabs((double)c.rhs[r]))); }
+    return e / sc;
+}
+
 struct RE { const char* name; double v, bound; };
+
 
 int main(int argc, char** argv) {
     verif::Run run("C44", argc, argv);
@@ -378,7 +445,51 @@ int main(int argc, char** argv) {
     auto anyBad = [](const std::vector<RE>& v) { for (auto& e : v) if (!(e.v <= e.bound)) return true; return false; };
     auto firstBad = [](const std::vector<RE>& v, const Fails& F) -> std::string { if (!F.v.empty()) return F.v[0].first; for (auto& e : v) if (!(e.v <= e.bound)) return e.name; return "?"; };
 
+
+    // One solveBilateral case: returns (key, what) pairs; records residuals through `rec`.
+    auto judgeBilateral = [&](const BCase& c, bool plus, const std::function<void(const std::string&, double, double)>& rec,
+                              std::vector<std::pair<std::string, std::string>>& viol, std::map<std::string, int64_t>& cnt, bool verbose) {
+        const std::string S = plus ? "PLUS" : "PGS"; const DM A = matrixOf(c.m, c.L); const DV D = c.dvalues(); const int np = (int)c.part.size();
+        DM M(np); for (int a = 0; a < np; ++a) for (int b = 0; b < np; ++b) M(a, b) = A(c.part[a], c.part[b]) + (a == b ? D[c.part[a]] : 0);
+        if (minCholPivot(M) < 1e-6) { cnt["bilateral:skipped:ill-posed"]++; return; }
+        BResult R = runBilateral(c, A, plus);
+        run.evaluationDistinct(true);
+        if (!R.ran) { viol.emplace_back("solveBilateral/" + S + "/" + (R.fault == "timeout" ? "hang" : R.fault.rfind("exception", 0) == 0 ? "exception" : "crash"), "solveBilateral did not return normally: " + R.fault); return; }
+        cnt["bilateral:" + S + ":solved"]++;
+        run.outcome(verif::hashMix(verif::hashStr("bilateral" + S), (uint64_t)(R.ret * 64 + c.dkind * 16 + np)));
+        if (verbose) { printf("returned %s\npi =", R.ret ? "true" : "false"); for (double v : R.pi) printf(" %.12g", v); printf("\n"); }
+        for (double v : R.pi) if (!std::isfinite(v)) { viol.emplace_back("solveBilateral/" + S + "/non-finite-result", "pi is not finite"); return; }
+        // rows that do not participate come back exactly zero (documented: Pbar*pi = 0), whatever pi held on entry
+        { std::vector<bool> in(c.m, false); for (int r : c.part) in[r] = true; bool ok = true; for (int i = 0; i < c.m; ++i) if (!in[i] && R.pi[i] != 0) ok = false;
+          if (!ok) viol.emplace_back("solveBilateral/" + S + "/nonparticipating-impulse", "a row that does not participate came back with a non-zero impulse"); }
+        if (plus && !R.ret) viol.emplace_back("solveBilateral/PLUS/returned-false", "the direct solve reported failure on a positive definite system");
+        if (!plus && !R.ret) { cnt["bilateral:PGS:returned-not-converged(equalities-not-demanded)"]++; return; }
+        const double res = bilateralResidual(c, A, D, R.pi), bound = plus ? 1e-8 : 1e-3;
+        if (res <= bound) { rec("solveBilateral/" + S + "/equalities", res, bound); return; }
+        // The participating equations do not hold.  Which D did the solver use?  (a) none: the known kind of defect "D ignored";
+        // (b) anything else (e.g. D entries of other rows): the equalities key.
+        const DV zero(c.m, 0.0);
+        if ((c.dkind == 2 || c.dkind == 3) && bilateralResidual(c, A, zero, R.pi) <= bound) {
+            viol.emplace_back("solveBilateral/" + S + "/D-ignored", "the result solves the participating equations with D dropped, not [A+D]pi = rhs (residual " + verif::fmtd(res) + ")"); return; }
+        if (!plus) {   // PGS claimed convergence: is the iteration itself sound (400 sweeps, early exit disabled)?
+            BResult R2 = runBilateral(c, A, false, 400);
+            if (R2.ran && bilateralResidual(c, A, D, R2.pi) <= bound) { viol.emplace_back("solveBilateral/PGS/premature-convergence", "returned true with residual " + verif::fmtd(res) + "; 400 sweeps without the early exit reach the solution"); return; } }
+        rec("solveBilateral/" + S + "/equalities", res, bound);
+    };
+
     // ---- replay of one recorded case
+    if (run.replaying() && run.replayField("mode") == "bilateral") {
+        BCase c = parseBCase(run.replayField("case")); const bool plus = run.replayField("solver") == "PLUS";
+        printf("solveBilateral case: %s solver=%s\n", c.str().c_str(), plus ? "PLUS" : "PGS");
+        DM A = matrixOf(c.m, c.L); DV D = c.dvalues();
+        printf("A ="); for (int i = 0; i < c.m; ++i) { printf(i ? "\n   " : " "); for (int j = 0; j < c.m; ++j) printf(" %g", A(i, j)); } printf("\nD ="); if (c.dkind == 1) printf(" (empty vector)"); else for (double v : D) printf(" %g", v); printf("\n");
+        std::vector<std::pair<std::string, std::string>> viol; std::map<std::string, int64_t> cnt; bool bad = false;
+        judgeBilateral(c, plus, [&](const std::string& n, double v, double b) { printf("  residual %-36s %.3g (bound %.3g)%s\n", n.c_str(), v, b, v <= b ? "" : "  <-- exceeds"); if (!(v <= b)) bad = true; }, viol, cnt, true);
+        for (auto& kv : cnt) printf("  %s\n", kv.first.c_str());
+        for (auto& v : viol) printf("ORACLE %s: %s\n", v.first.c_str(), v.second.c_str());
+        if (bad || !viol.empty()) { printf("VIOLATION property=C44 replay=%s\n", run.replayPath.c_str()); return 1; }
+        printf("no violation on replay\n"); return 0;
+    }
     if (run.replaying()) {
         Problem p = parseProblem(run.replayField("case")); const bool plus = run.replayField("solver") == "PLUS";
         Instance I = instantiate(p);
@@ -421,7 +532,10 @@ int main(int argc, char** argv) {
     // One case on one solver, in this process.
     auto runCase = [&](const Problem& p, const Instance& I, bool plus, std::map<std::string, int64_t>& cnt, int64_t& trans) {
         const std::string S = plus ? "PLUS" : "PGS";
-        Result R = runSolver(p, I, plus);
+        bool frictionalCase = false; for (Kind k : p.blocks) if (k == kF || k == kFK) frictionalCase = true;
+        Result R;
+        if (plus && frictionalCase) { std::string pf = preflight(p, I, true); if (!pf.empty()) { R.ran = false; R.fault = pf; cnt["PLUS:preflight-child-did-not-return"]++; } else R = runSolver(p, I, plus); }
+        else R = runSolver(p, I, plus);
         run.evaluationDistinct(!I.participating.empty());
         std::vector<std::pair<std::string, std::string>> viol;
         auto where = [&] { return p.str() + " solver=" + S; };
@@ -514,6 +628,49 @@ int main(int argc, char** argv) {
         }
     };
 
+    std::string only; for (size_t i = 0; i + 1 < run.extra.size(); ++i) if (run.extra[i] == "--only") only = run.extra[i + 1];   // development aid: run one section
+    if (!only.empty()) run.exhaustive = false;
+
+    // (this cheap section runs first so that a deadline hit in the long "cases" section cannot skip it)
+    // ---- solveBilateral: every non-empty subset of participating rows, in ascending and in descending order (thorough: every order),
+    //      x A family x D kind {zeros, empty vector, uniform 0.1, non-uniform} x rhs sign patterns x both solvers; m <= 4 in both tiers.
+    {
+        struct BItem { int m; int lIdx; };
+        std::vector<AFamily> bfam(5); std::vector<BItem> bitems;
+        for (int m = 1; m <= 4; ++m) { bfam[m] = m <= 3 ? makeLs(m, {1, 2}, {-1, 0, 1}, true) : makeLs(m, {1}, {-1, 0, 1}, false);
+            for (int li = 0; li < (int)bfam[m].Ls.size(); ++li) bitems.push_back({m, li}); }
+        const int seedVariant = (int)(((run.seed % 3) + 3) % 3);
+        run.extraCoverage["bilateral_nonuniform_D_variant"] = thorough ? "\"all three\"" : std::to_string(seedVariant);
+        if (only.empty() || only == "bilateral")
+        run.parallel("bilateral", (int64_t)bitems.size(), [&](int64_t idx) {
+            const BItem it = bitems[idx]; const int m = it.m;
+            std::map<std::string, int64_t> cnt; int64_t trans = 0;
+            BCase c; c.m = m; c.L = bfam[m].Ls[it.lIdx];
+            // ordered participation lists
+            std::vector<std::vector<int>> lists;
+            for (int mask = 1; mask < (1 << m); ++mask) { std::vector<int> asc; for (int i = 0; i < m; ++i) if (mask >> i & 1) asc.push_back(i);
+                if (!thorough) { lists.push_back(asc); if (asc.size() > 1) lists.push_back(std::vector<int>(asc.rbegin(), asc.rend())); }
+                else { std::vector<int> pm = asc; do lists.push_back(pm); while (std::next_permutation(pm.begin(), pm.end())); } }
+            const int base = m <= 3 ? 3 : 2; int64_t nrhs = 1; for (int i = 0; i < m; ++i) nrhs *= base;
+            for (auto& pl : lists) { c.part = pl;
+                for (int dk = 0; dk < 4; ++dk) for (int dv = 0; dv < (dk == 3 && thorough ? 3 : 1); ++dv) { c.dkind = dk; c.dvariant = dk == 3 ? (thorough ? dv : seedVariant) : 0;
+                    for (int64_t rc = 0; rc < nrhs; ++rc) {
+                        c.rhs.assign(m, 0); { int64_t t = rc; for (int i = 0; i < m; ++i) { int d = (int)(t % base); c.rhs[i] = base == 3 ? d - 1 : (d ? 1 : -1); t /= base; } }
+                        for (int plus = 0; plus < 2; ++plus) {
+                            const std::string S = plus ? "PLUS" : "PGS";
+                            auto where = [&] { return "solveBilateral " + c.str() + " solver=" + S; };
+                            auto replay = [&] { return run.replayHeader() + "mode=bilateral\ncase=" + c.str() + "\nsolver=" + S + "\n"; };
+                            std::vector<std::pair<std::string, std::string>> viol;
+                            judgeBilateral(c, plus != 0, [&](const std::string& n, double v, double b) { run.residual(n, v, b, where, replay); }, viol, cnt, false);
+                            trans += 3;
+                            for (auto& v : viol) { cnt["oracle:" + v.first + ":FAIL"]++; int64_t& seen = run.acc.violCountByKey[v.first]; if (seen >= (int64_t)run.maxViolsPerKey) { seen++; continue; } run.violation(v.first, v.second + " | " + where(), replay()); }
+                        } } } }
+            for (auto& kv : cnt) run.count(kv.first, kv.second);
+            run.transition(trans);
+        });
+    }
+
+    if (only.empty() || only == "cases")
     run.parallel("cases", (int64_t)items.size(), [&](int64_t idx) {
         const Item it = items[idx];
         Problem p; p.m = it.m; p.blocks = roles[it.m][it.roleIdx]; p.L = fam[it.m].Ls[it.lIdx];
@@ -556,6 +713,7 @@ int main(int argc, char** argv) {
                 for (int64_t rc = 0; rc < nrhs; ++rc) { Problem p; p.m = m; p.blocks = rl; p.L = L; p.rhs.assign(m, 0); int64_t c = rc; for (int i = 0; i < m; ++i) { p.rhs[i] = (int)(c % 3) - 1; c /= 3; }
                     if (!plusOk) probes.push_back({p, true}); if (hasSpeed) probes.push_back({p, false}); } }
         }
+        if (only.empty() || only == "probes")
         run.parallel("probes", (int64_t)probes.size(), [&](int64_t idx) {
             const Probe& pr = probes[idx]; const std::string S = pr.plus ? "PLUS" : "PGS";
             std::string role; for (Kind k : pr.p.blocks) if (pr.plus ? !plusImplements(k) : (k == kS || k == kSm)) { role = KNAME[k]; if (role == "Sm") role = "S"; if (role == "TT") role = "T"; if (role == "C3") role = "C2"; break; }
